@@ -99,6 +99,11 @@ pub fn fragments(f: Fmt) -> Vec<(&'static str, String)> {
         ("empty", String::new()),
         ("spaces", "  ".to_string()),
         ("unknown-connecter", format!("{}A{} B{}", cl, sep, cr)),
+        ("placeholder-with-suffix", format!("{}tail", e.atom.prefix_placeholder)),
+        ("image-ending-in-suffixed-placeholder", format!("{}A {} {}{}{} R{} B{} {}x{}{}{}", sl, inh, cl, e.compound.connecter_image_extension, sep, sep, sep, e.atom.prefix_placeholder, cr, sr, j)),
+        ("compact-sentence", format!("{}A{}B{}{}", sl, inh, sr, j)),
+        ("compact-task", format!("{}0.5{}{}A{}B{}{}{}1{}0.9{}", bl, br, sl, inh, sr, j, tl, ts, tr)),
+        ("long-budget", format!("{}0.30000000000000004{}  0.7999999999999999{}   0.15000000000000002  {} A{}", bl, bs, bs, br, j)),
     ]
 }
 
@@ -233,6 +238,53 @@ fn single_failure(f: Fmt, s: &str) -> Option<String> {
         return Some(format!("lexical parse of {:?} gave {} and then {}", s, l1, l2));
     }
     None
+}
+
+/// the same parse on a freshly spawned thread (no history at all, fresh thread-locals) must agree
+/// with the parse on this long-lived worker thread, which has parsed thousands of inputs before
+fn fresh_thread_failure(f: Fmt, s: &str) -> Option<String> {
+    let here_enum = solo(f, s);
+    let here_lex = match observe(|| f.l().parse(s).map(|v| lexgen::lex_canon(&v)).map_err(|_| ())) {
+        Obs::Ret(Ok(c)) => format!("Ok({})", c),
+        Obs::Ret(Err(_)) => "Err".to_string(),
+        Obs::Panic(p) => format!("PANIC({})", panic_site(&p)),
+    };
+    let text = s.to_string();
+    let fresh = std::thread::spawn(move || {
+        let e = match std::panic::catch_unwind(|| f.e().parse::<Narsese>(&text).map(|v| canon_real_narsese(&v)).map_err(|_| ())) {
+            Ok(Ok(c)) => format!("Ok({})", c),
+            Ok(Err(_)) => "Err".to_string(),
+            Err(_) => "PANIC".to_string(),
+        };
+        let l = match std::panic::catch_unwind(|| f.l().parse(&text).map(|v| lexgen::lex_canon(&v)).map_err(|_| ())) {
+            Ok(Ok(c)) => format!("Ok({})", c),
+            Ok(Err(_)) => "Err".to_string(),
+            Err(_) => "PANIC".to_string(),
+        };
+        (e, l)
+    })
+    .join()
+    .ok()?;
+    let norm = |x: &str| if x.starts_with("PANIC") { "PANIC".to_string() } else { x.to_string() };
+    if norm(&here_enum) != fresh.0 {
+        return Some(format!("enum parse of {:?} on the long-lived worker thread = {} but on a fresh thread = {}", s, here_enum, fresh.0));
+    }
+    if norm(&here_lex) != fresh.1 {
+        return Some(format!("lexical parse of {:?} on the long-lived worker thread = {} but on a fresh thread = {}", s, here_lex, fresh.1));
+    }
+    None
+}
+
+fn check_fresh(ctx: &mut Ctx, f: Fmt, s: &str) {
+    ctx.report.eval();
+    ctx.report.bump("family.history-vs-fresh-thread");
+    if let Some(w) = fresh_thread_failure(f, s) {
+        ctx.report.violate(
+            format!("C08|fresh-thread|{}|{}", f.name(), w.split(" of ").next().unwrap_or("")),
+            format!("[{}] {}", f.name(), w),
+            J::obj().set("kind", "fresh-thread").set("format", f.name()).set("input", s).set("why", w.clone()),
+        );
+    }
 }
 
 fn check_single(ctx: &mut Ctx, f: Fmt, s: &str) {
@@ -435,6 +487,13 @@ pub fn run(ctx: &mut Ctx) {
         if i % 50 == 0 {
             ctx.report.sample(|| J::obj().set("format", f.name()).set("sequence", J::Arr(seq.iter().map(J::from).collect())));
             check_single(ctx, f, &seq[0]);
+        }
+        if i % 20 == 0 {
+            // by now this thread has a long history of accepted and rejected inputs of all formats
+            let k = rng.below(seq.len());
+            check_fresh(ctx, f, &seq[k]);
+            let wf = gens[fi].wellformed(&mut rng, 4);
+            check_fresh(ctx, f, &wf);
         }
         if i % 400 == 0 {
             thread_check(ctx, f, &seq);
